@@ -15,6 +15,7 @@ import (
 	"time"
 
 	"github.com/marekgalovic/anndb/index"
+	amath "github.com/marekgalovic/anndb/math"
 	pb "github.com/marekgalovic/anndb/protobuf"
 	"github.com/marekgalovic/anndb/storage"
 	uuid "github.com/satori/go.uuid"
@@ -108,6 +109,17 @@ func cloneM(m map[string]string) map[string]string {
 // Target abstracts "a dataset reachable through some live node".
 type Target func() *storage.Dataset
 
+// Writer is the write half of a dataset: storage.Dataset in the in-process rig,
+// a gRPC client of a real server process in the process rig.
+type Writer interface {
+	Insert(ctx context.Context, id uuid.UUID, value amath.Vector, metadata index.Metadata) error
+	Update(ctx context.Context, id uuid.UUID, value amath.Vector, metadata index.Metadata) error
+	Remove(ctx context.Context, id uuid.UUID) error
+	BatchInsert(ctx context.Context, items []*pb.BatchItem) (map[uuid.UUID]error, error)
+	BatchUpdate(ctx context.Context, items []*pb.BatchItem) (map[uuid.UUID]error, error)
+	BatchRemove(ctx context.Context, items []*pb.BatchItem) (map[uuid.UUID]error, error)
+}
+
 // Step issues the next operation of client c through the dataset returned by
 // target. crashed() is consulted under the workload mutex together with the
 // result, so that "acknowledged" means: returned success before the crash flag
@@ -118,6 +130,14 @@ func (w *Workload) Step(rng *rand.Rand, c *IdClient, target Target, timeout time
 	}
 	d := target()
 	if d == nil {
+		return
+	}
+	w.StepW(rng, c, d, timeout, crashed)
+}
+
+// StepW is Step against any Writer.
+func (w *Workload) StepW(rng *rand.Rand, c *IdClient, d Writer, timeout time.Duration, crashed func() bool) {
+	if c.Open != nil || d == nil {
 		return
 	}
 	ver := int(atomic.AddInt64(&w.verCtr, 1))
@@ -177,7 +197,7 @@ func (w *Workload) Step(rng *rand.Rand, c *IdClient, target Target, timeout time
 	if err != nil {
 		msg = err.Error()
 	}
-	definite := err == nil || contains(msg, "already exists") || contains(msg, "not found")
+	definite := err == nil || contains(msg, "Item already exists") || contains(msg, "Item not found")
 	switch {
 	case dead || !definite:
 		// outcome unknown: the operation may or may not take effect
